@@ -427,6 +427,13 @@ def run(ctx):
                   'enc must add subkeys and dec subtract them (enc +%d -%d, dec +%d -%d)' % (plus(te), minus(te), plus(td), minus(td)), ctx.where(TF, 'Threefish.dec'))
     ctx.guard('Threefish mirror', tf_mirror)
 
+    ctx.rule('C03-R3 enc/dec bodies (shared with C02)')
+    from ..spec import ciphers as CS
+    cmp_many(ctx, AES, [('AES.enc', CS.AES_ENC), ('AES.dec', CS.AES_DEC), ('AES.keyschedule', CS.AES_KEYSCHEDULE)])
+    cmp_many(ctx, DES, [('DES.enc', CS.DES_ENC), ('DES.dec', CS.DES_DEC), ('TDEA.enc', CS.TDEA_ENC), ('TDEA.dec', CS.TDEA_DEC), ('TDEA.__init__', CS.TDEA_INIT)])
+    cmp_many(ctx, SER, [('Serpent.enc', CS.SERPENT_ENC), ('Serpent.dec', CS.SERPENT_DEC), ('Serpent.__init__', CS.SERPENT_INIT)])
+    cmp_many(ctx, TF, [('Threefish.enc', CS.THREEFISH_ENC), ('Threefish.dec', CS.THREEFISH_DEC), ('Threefish.__ks', CS.THREEFISH_KS)], OPT_ARITH)
+
     # ------------------------------------------------------------ R4 block length
     ctx.rule('C03-R4 block length')
 
